@@ -64,6 +64,14 @@ M = {
  "D05_real_tablet_read_error_becomes_end": ("C20", RL, [("          Err(e) => Err(format!(\"read() from tablet mode switch failed with {}\", e)),", "          Err(_) => Ok(Next::End),")], "RealDriver::next_tablet turns a read error into a clean end"),
  "D06_real_keyboard_enodev_becomes_busy": ("C10", RL, [("      Err(Error::Sys(ENODEV)) => Ok(Next::End),\n      Err(e) => Err(format!(\"read() from keyboard failed with {}\", e)),", "      Err(Error::Sys(ENODEV)) => Ok(Next::Busy),\n      Err(e) => Err(format!(\"read() from keyboard failed with {}\", e)),")], "RealDriver::next_keyboard answers Busy to an unplugged keyboard: the loop never stops (system-call seam: read fails with ENODEV)"),
  "D07_real_keyboard_enodev_is_an_error": ("EQ:C10,C20,C18", RL, [("      Err(Error::Sys(ENODEV)) => Ok(Next::End),\n      Err(e) => Err(format!(\"read() from keyboard failed with {}\", e)),", "      Err(e) => Err(format!(\"read() from keyboard failed with {}\", e)),")], "RealDriver::next_keyboard reports an unplugged keyboard as an error: the loop still stops at once without further writes (no property says the result must be Ok)"),
+ # ---------------- RealDriver::poll itself (syspoll runs: the simulated kernel answers its wait system call)
+ "D08_real_poll_error_becomes_interrupted": ("C20", RL, [("          _ => {\n            Err(format!(\"poll failed: {}\", e))\n          }", "          _ => {\n            Ok(PollResult::Interrupted)\n          }")], "RealDriver::poll treats every failure of the wait system call as an interruption and carries on"),
+ "D09_real_poll_eintr_is_a_timeout": ("C11", RL, [("          std::io::ErrorKind::Interrupted => {\n            Ok(PollResult::Interrupted)\n          },", "          std::io::ErrorKind::Interrupted => {\n            Ok(PollResult::TimedOut)\n          },")], "RealDriver::poll reports a signal interruption as a time-out: the repeat chord is written early"),
+ "D10_real_poll_ignores_timeout": ("C11", RL, [("    match registry.poll.poll(&mut registry.events, timeout) {", "    let _ = timeout;\n    match registry.poll.poll(&mut registry.events, None) {")], "RealDriver::poll waits without a time-out: repeat chords never come"),
+ "D11_real_poll_adds_slack": ("C11", RL, [("    match registry.poll.poll(&mut registry.events, timeout) {", "    match registry.poll.poll(&mut registry.events, timeout.map(|t| t + Duration::from_millis(8))) {")], "RealDriver::poll waits 8 ms longer than asked"),
+ "D12_real_poll_eintr_is_an_error": ("C10", RL, [("          std::io::ErrorKind::Interrupted => {\n            Ok(PollResult::Interrupted)\n          },", "          std::io::ErrorKind::Interrupted => {\n            Err(format!(\"poll failed: {}\", e))\n          },")], "RealDriver::poll turns a signal interruption into a failure: the loop stops although nothing failed"),
+ "D13_real_poll_timeout_in_seconds": ("C11", RL, [("    match registry.poll.poll(&mut registry.events, timeout) {", "    match registry.poll.poll(&mut registry.events, timeout.map(|t| Duration::from_secs(t.as_secs()))) {")], "RealDriver::poll truncates the time-out to whole seconds: sub-second waits return at once, the chord is written early"),
+ "D14_real_poll_rounds_timeout_up": ("EQ:C10,C11,C12,C20", RL, [("    match registry.poll.poll(&mut registry.events, timeout) {", "    match registry.poll.poll(&mut registry.events, timeout.map(|t| Duration::from_millis(((t.as_micros() + 999) / 1000) as u64))) {")], "RealDriver::poll rounds the time-out up to the next millisecond (what newer mio versions do themselves): never early, less than a millisecond late"),
  # ---------------- byte layer
  "W01_release_written_as_value_2": ("C18", RW, [("        Event::Released(_) => 0\n      };", "        Event::Released(_) => 2\n      };")], "release encoded as auto-repeat"),
  "W02_no_syn_report": ("C18", RW, [("    send_type_code_value(0, 0, 0);\n    \n    write(self.fd", "    \n    write(self.fd")], "batch not terminated by SYN_REPORT"),
